@@ -1,6 +1,5 @@
 import Operon.Lemmas.C05
 import Operon.Gen.AtpLocks
-import Operon.Props.C04
 /-!
 # C05 — energy store operations are atomic under every thread interleaving
 
@@ -29,43 +28,6 @@ theorem c05_shapes_wellLocked :
     (∀ sk ∈ [Gen.AtpLocks.consume, Gen.AtpLocks.regenerate, Gen.AtpLocks.convert, Gen.AtpLocks.transferTo],
       Sk.flat none sk = true) ∧
     (Gen.AtpLocks.lockKind = "Lock" ∨ Gen.AtpLocks.lockKind = "RLock") := by decide
-
-/-- the body of each critical region, written with the functions that `harness/vf/extract/py2lean_metabolism.py` translates
-    from the source of `ATP_Store` on every run (`Operon/Gen/AtpTranslated.lean`) -/
-def bodyT (cls : Classifier) (obs : Nat → Obs) : Act → Loc → Store → Loc × Store
-  | .consume i cost cur d p, l, s =>
-    let r := Gen.AtpT.consumeT cls (obs i) s cost cur d p
-    (⟨l.rets ++ [retBool r.2], l.pending⟩, r.1)
-  | .regenerate i n cur, l, s =>
-    let r := Gen.AtpT.regenerateT cls (obs i) s n cur
-    (⟨l.rets ++ [retUnit r.2], l.pending⟩, r.1)
-  | .convert _ n, l, s =>
-    let r := Gen.AtpT.convertT s n
-    (⟨l.rets ++ [.int r.2], l.pending⟩, r.1)
-  | .withdraw _ n cur, l, s =>
-    let w := Gen.AtpT.transferWithdrawT s n cur
-    (⟨if w.2 then l.rets else l.rets ++ [.bool false], w.2⟩, w.1)
-  | .deposit j n cur, l, s =>
-    if l.pending then
-      let r := Gen.AtpT.transferDepositT cls (obs j) s n cur
-      (⟨l.rets ++ [match r.2 with | .ok _ => .bool true | .error e => .raised e], false⟩, r.1)
-    else (l, s)
-
-/-- **The region bodies are the translated source**: the atomic actions every theorem below speaks about are the
-    functions regenerated from `metabolism.py` (C04's agreement theorems), so an edit that changes what a critical region
-    computes breaks this theorem before any schedule is explored. -/
-theorem c05_region_bodies_are_the_translated_source (cls : Classifier) (obs : Nat → Obs) :
-    body cls obs = bodyT cls obs := by
-  funext a l s
-  cases a with
-  | consume i cost cur d p =>
-    simp only [body, bodyT, c04_translation_agrees_consume]
-  | regenerate i n cur => simp only [body, bodyT, c04_translation_agrees_regenerate]
-  | convert i n => simp only [body, bodyT, c04_translation_agrees_convert]
-  | withdraw i n cur => simp only [body, bodyT, c04_translation_agrees_transfer_withdraw]
-  | deposit j n cur =>
-    simp only [body, bodyT, c04_translation_agrees_transfer_deposit]
-    split <;> rfl
 
 /-- **Serializability at the level of atomic actions.**  Whatever the interleaving of source lines, every quiescent
     configuration reached (no lock held — in particular the final one) is reached by executing the critical regions
